@@ -7,13 +7,13 @@ UF = ["--arrays-uf-always"]
 OBL = []
 
 MODPATH = {
-    "ast.rs": "ast", "ast__sim.rs": "ast::sim", "asm.rs": "asm", "asm__objblock.rs": "asm", "asm__encoding.rs": "asm::encoding", "err.rs": "err",
+    "ast.rs": "ast", "ast__sim.rs": "ast::sim", "asm.rs": "asm", "asm__objblock.rs": "asm", "sim__new.rs": "sim", "asm__encoding.rs": "asm::encoding", "err.rs": "err",
     "parse.rs": "parse", "parse__lex.rs": "parse::lex", "sim.rs": "sim", "sim__mem.rs": "sim::mem", "sim__mem__copy.rs": "sim::mem", "sim__frame.rs": "sim::frame", "sim__device.rs": "sim::device", "sim__device__poll.rs": "sim::device", "sim__device__h.rs": "sim::device", "sim__frame__h.rs": "sim::frame", "sim__mem__h.rs": "sim::mem",
     "sim__device__timer.rs": "sim::device::timer", "sim__device__keyboard.rs": "sim::device::keyboard", "sim__device__display.rs": "sim::device::display", "sim__debug.rs": "sim::debug", "sim__observer.rs": "sim::observer",
 }
 
 
-MODNAME = {"asm__objblock.rs": "verif_kani_gen::objblock_h", "sim__mem__copy.rs": "verif_kani_copy", "sim__device__poll.rs": "verif_kani_poll", "sim__device__h.rs": "verif_kani_h", "sim__frame__h.rs": "verif_kani_h", "sim__mem__h.rs": "verif_kani_h"}
+MODNAME = {"sim__new.rs": "verif_kani_new", "asm__objblock.rs": "verif_kani_gen::objblock_h", "sim__mem__copy.rs": "verif_kani_copy", "sim__device__poll.rs": "verif_kani_poll", "sim__device__h.rs": "verif_kani_h", "sim__frame__h.rs": "verif_kani_h", "sim__mem__h.rs": "verif_kani_h"}
 
 
 def K(id, module, harness, props, functions, kind="complete", bound=None, tier="quick", args=None, timeout=900,
@@ -143,6 +143,12 @@ K("K.sim.reset", "sim.rs", "reset_contract", ["C30"], ["Simulator::reset"], args
   stubs=["Simulator::new_with_mcr=records its arguments, returns a marked fresh machine", "DeviceHandler::io_reset=counted (K.device.io_reset_all)", RS], group="reset")
 K("K.sim.reset_register_map", "sim.rs", "reset_keeps_register_map", ["C30"], ["Simulator::reset"], kind="bounded", bound="one concrete mapping (PC@xFE10) before the reset; fresh machine has the default map",
   args=UF, stubs=["Simulator::new_with_mcr=marked fresh machine with the default register map", "DeviceHandler::io_reset=counted", RS], unwindset={"hashbrown": 3}, timeout=2400)
+NEWSTUBS = ["MemArray::new=arbitrary memory (its 65536-iteration filler loop cannot be unwound)", "<[Word]>::fill=contract of slice::fill restricted to the one word the harness observes afterwards (symbolic address chosen beforehand, located through the slice position inside the memory array); executed, the 512 updates ran out of memory (> 20 GB)",
+            "Simulator::load_os=counted; arbitrary writes below xFE00, os_loaded set (the OS image is an assembled object: no assembled block reaches the I/O page, C02)", "FrameStack::new=records its argument, arbitrary stack (own obligation K.new.frame_stack_new)",
+            "<() as WordFiller>::generate, <StdRng as WordFiller>::generate=arbitrary word; <StdRng as SeedableRng>::from_seed=some generator (rand's ChaCha code crashes the Kani compiler when reachable)", RS]
+K("K.new.constructor", "sim__new.rs", "new_with_mcr_contract", ["C29", "C30"], ["Simulator::new_with_mcr", "MachineInitStrategy::generator", "RegFile::new", "InternalRegister::default_mmap"], args=UF, stubs=NEWSTUBS, unwindset={"hashbrown": 9}, timeout=1500,
+  assumptions=["load_os places the OS image (parse_ast o assemble of os.asm, then load_obj_file): not verified"])
+K("K.new.deterministic", "sim__new.rs", "new_with_mcr_deterministic", ["C30"], ["Simulator::new_with_mcr"], args=UF, stubs=NEWSTUBS, group="newdet", timeout=1500, kind="bounded", bound="strategy Known { value } (the deterministic one without rand); memory contents not compared (MemArray::new stubbed)")
 K("K.sim.step_in_contract", "sim.rs", "step_in_contract", ["C13", "C28", "C08"], ["Simulator::step_in"], args=UF,
   stubs=["Simulator::step=any outcome (contract discharged by K.sim.step_*)", "AccessObserver::clear=counted (K.observer.map)", RS], group="stepin", timeout=1200)
 RUNFN = ["Simulator::run_while", "Simulator::run_with_limit", "Simulator::run", "Simulator::step_over", "Simulator::step_out", "Simulator::hit_halt", "Simulator::hit_breakpoint", "Breakpoint::check"]
@@ -283,7 +289,7 @@ PROPS = {
  "C26": ("proof", "Span container: every ErrSpan constructible through its public From/Extend impls (incl. the empty list both link errors carry) supports first() and iter() without panic. Call sites assumed."),
  "C27": ("proof", "Depth delta and the content of every entered frame (caller = calling / interrupted instruction, callee = subroutine start or vector, kind) are part of the ISA reference of every step (L2, push_frame replaced by its contract); push/pop leaf contract; debug frames without signature and get_arguments bounded (<= 2 parameters)."),
  "C28": ("proof", "Observer calls exact in read_mem/write_mem (L1), every program access tracked and the access set is the ISA's (L2); observer map bounded (2 updates)."),
- "C29": ("other", "Partial, bounded: MemArray::copy_obj_block (the function that places one block of the image) sets exactly the block's initialized words, marks its reserved words uninitialized and leaves every other word unchanged, incl. blocks that wrap past xFFFF -- for concrete start addresses and shapes (6 obligations), values / old memory / probe symbolic. load_obj_file's loop over blocks, the external-symbol check and 'a new simulator holds the OS image' are not covered."),
+ "C29": ("other", "Partial, bounded: MemArray::copy_obj_block (the function that places one block of the image) sets exactly the block's initialized words, marks its reserved words uninitialized and leaves every other word unchanged, incl. blocks that wrap past xFFFF -- for concrete start addresses and shapes (6 obligations), values / old memory / probe symbolic. The constructor new_with_mcr: OS loaded once, every word of the I/O page an initialized zero (symbolic probe, all strategies), with the 64K filler, slice::fill, load_os and FrameStack::new stubbed. load_obj_file's loop over blocks, the external-symbol check and 'a new simulator holds the OS image' are not covered."),
  "C30": ("proof", "reset against new_with_mcr's contract (recording stub): constructor called once with the same flags and the same MCR handle; all architectural state (registers, PC, PSR, saved SP, frame depth, instruction count, memory at a symbolic probe, halt/breakpoint status) is the fresh machine's; device handler moved across; register map kept by content (one concrete mapping, bounded)."),
  "C32": ("proof", "Port-table representation invariant at symbolic witness ports: dispatch reaches the owner exactly once; add/remove/replace preserve it (device counts bounded); internal registers win over devices (L1, empty and default map); mmap/munmap with concrete addresses incl. a second mapping of an occupied address; the real keyboard and display devices against their register contracts."),
  "C34": ("proof", "Unbounded (Verus): countdown step contract on the verbatim bodies + interval/first-interrupt lemmas by induction. Kani: SampleRange::new leaf; try_generate_time draws inside the configured range (rand's range reduction verified through, four concrete ranges); every device polled exactly once per boundary also with external interrupts present."),
